@@ -835,6 +835,37 @@ def compact_family(rep, prefix, tcfg, what):
     overwrite / add a field through it, then read every sibling; commit and reload again."""
     hists = []
     vid = [0]
+    # same-typed ARRAY siblings (array extra data is shared per type in the encoding): reload, then retype / mutate one child
+    for parent in ("A", "M"):
+        for n in (2, 3):
+            for reload in ("crash", "dropcache"):
+                for how in ("get", "iter"):
+                    for victim in range(n):
+                        for act in ("settype", "app", "rem"):
+                            h = [["root", 1, "A"]]
+                            p, nxt, sid = 1, 2, 1
+                            if parent == "M":
+                                h.append(["n.appc", 1, nxt, "M", 0]); p = nxt; nxt += 1
+                            kids = []
+                            for c in range(n):
+                                if parent == "A":
+                                    h.append(["n.appc", p, nxt, "A", c % 2])
+                                else:
+                                    h.append(["n.msetc", p, c + 1, 5, nxt, "A", c % 2])
+                                for _ in range(2):
+                                    h.append(["n.app", nxt, sid, 12, 0]); sid += 1
+                                kids.append(nxt); nxt += 1
+                            h += [["commit", "det", 1, 0], [reload]]
+                            if parent == "M":
+                                h.append(["n.get", 1, 0, p])
+                            if how == "get":
+                                h.append(["n.get", p, victim, kids[victim]] if parent == "A" else ["n.mget", p, victim + 1, 5, kids[victim]])
+                            else:
+                                h.append(["n.iter", p])
+                            v = kids[victim]
+                            h.append({"settype": ["n.settype", v, 47], "app": ["n.app", v, sid, 12, 0], "rem": ["n.rem", v, 0, False, 0]}[act])
+                            h += [["commit", "nondet", 2, 0], ["crash"]]
+                            hists.append(h)
     for parent in ("A", "M"):
         for n in (2, 3):
             for nk in (2, 3):
